@@ -129,7 +129,11 @@ func (e *Engine) RunCheck(prop string, timeoutS int, thorough bool, known []Know
 			continue
 		}
 		for _, o := range res.Obls {
-			if (o.Kind == "safe" || o.Kind == "dec") && prop != "C20" {
+			// panic freedom belongs to C20, and to C12 (a panic in one group's scan stops every later group)
+			if o.Kind == "dec" && prop != "C20" {
+				continue
+			}
+			if o.Kind == "safe" && prop != "C20" && prop != "C12" {
 				continue
 			}
 			rep.Obls = append(rep.Obls, o)
@@ -146,6 +150,17 @@ func (e *Engine) RunCheck(prop string, timeoutS int, thorough bool, known []Know
 	rep.Obls = append(rep.Obls, rep.Lemmas...)
 	all := append(append([]*Obligation{}, rep.Obls...), rep.Covers...)
 	Discharge(all, timeoutS, 10, thorough)
+	// an obligation that did not discharge is tried once more, alone-ish and with twice the time:
+	// a busy machine must not turn a slow proof into an alarm
+	var again []*Obligation
+	for _, o := range rep.Obls {
+		if o.Status != "unsat" && o.Status != "sat" && o.ctx != nil {
+			again = append(again, o)
+		}
+	}
+	if len(again) > 0 && len(again) <= 40 {
+		Discharge(again, 2*timeoutS, 4, thorough)
+	}
 	// lemmas about the spec functions themselves that need induction: Lean 4 / Mathlib files
 	rep.Obls = append(rep.Obls, leanLemmas(prop)...)
 	for _, o := range rep.Obls {
